@@ -53,7 +53,59 @@ OTHER_RV = ["uniform", "halfnormal", "studentt", "truncnormal", "lognormal", "be
 KIND_OF = dict(normal="normal", fcm="fcm", normal_dep_sigma="normalDep", normal_dep_mu="normalDep", normal_dep_symbolic="normalDep", determ="unnamedOp", expr="unnamedOp", const="noOwner", pyfloat="noOwner",
                fake="notTensor", **{k: "otherRV" for k in OTHER_RV})
 KIND_OF["uniformlog"] = "unnamedOp"     # thejoker's own UniformLogRV has no `_print_name`
-REGISTERS = {"normal", "fcm", "determ", "normal_dep_sigma", "normal_dep_mu", "normal_dep_symbolic"} | set(OTHER_RV)     # kinds that enter model.named_vars
+# FixedCompanionMass: "fcm" is built on the prior's OWN P and e (the only dependence the kernel implements); on other
+# variables ("fcm_foreign", or "fcm" when the description has no usable P / e) or with a random mean ("fcm_dep_mu") it is
+# a dependent Normal like any other
+KIND_OF["fcm_foreign"] = "normalDep"
+KIND_OF["fcm_dep_mu"] = "normalDep"
+REGISTERS = {"normal", "fcm", "fcm_foreign", "fcm_dep_mu", "determ", "normal_dep_sigma", "normal_dep_mu", "normal_dep_symbolic"} | set(OTHER_RV)     # kinds that enter model.named_vars
+NOT_A_TENSOR = ("fake", "pyfloat")
+
+
+def resolve_fcm(entries):
+    """mark every FixedCompanionMass entry with what it is built on, from the description alone (dict semantics: the last
+    entry called P / e counts)"""
+    last = {}
+    for e in entries:
+        if e["name"] in ("P", "e") and not e.get("misnamed"):
+            last[e["name"]] = e
+    own = all(n in last and last[n]["dk"] not in NOT_A_TENSOR and not last[n]["dk"].startswith("fcm") for n in ("P", "e"))
+    for e in entries:
+        if e["dk"] in ("fcm", "fcm_dep_mu"):
+            e["fcm_on"] = "own" if own else "foreign"
+    return entries
+
+
+def kof(e):
+    """Lean kind of a declared entry"""
+    if e["dk"] == "fcm" and e.get("fcm_on") == "foreign":
+        return "normalDep"
+    return KIND_OF[e["dk"]]
+
+
+def build_vars(entries, models, vname=lambda e: e["name"]):
+    """the declared variables, in the order of `entries`; FixedCompanionMass entries are built last, on the P and e
+    variables of the description when it has them"""
+    built = [None] * len(entries)
+    own = {}
+    for i, e in enumerate(entries):
+        if not e["dk"].startswith("fcm"):
+            built[i] = attach_unit(make_var(vname(e), e["dk"], models), e["unit"], vname(e))
+            if e["name"] in ("P", "e") and not e.get("misnamed"):
+                own[e["name"]] = built[i]
+    for i, e in enumerate(entries):
+        if e["dk"].startswith("fcm"):
+            use = own if (e.get("fcm_on") == "own" and e["dk"] != "fcm_foreign") else None
+            try:
+                built[i] = attach_unit(make_var(vname(e), e["dk"], models, own=use), e["unit"], vname(e))
+            except Exception:
+                # FixedCompanionMass itself refuses P / e variables whose declared units are not a time / a number (a
+                # mutated description): the prior is then declared on stand-in variables; JokerPrior must refuse the
+                # description at its unit check in any case
+                if use is None:
+                    raise
+                built[i] = attach_unit(make_var(vname(e), e["dk"], models, own=None), e["unit"], vname(e))
+    return built
 
 
 _TREND = re.compile(r"v(0|[1-9][0-9]*)")
@@ -95,7 +147,7 @@ class Fake:
 _aux = [0]
 
 
-def make_var(name, dk, models):
+def make_var(name, dk, models, own=None):
     """create the prior variable `name` of detailed kind `dk` inside models[0] (or models[1] when the name is
     already taken there: pymc refuses two variables with one name in a model)"""
     import pymc as pm
@@ -119,9 +171,13 @@ def make_var(name, dk, models):
             return pm.Normal(name, 0.0, 1.0 + pm.Truncated(aux, pm.LogNormal.dist(0.0, 1.0), lower=0.1, upper=10.0))
         if dk == "normal_dep_mu":         # a Normal whose mean is another random variable (hyper-prior)
             return pm.Normal(name, pm.Normal(aux, 0.0, 2.0), 5.0)
-        if dk == "fcm":
-            return FixedCompanionMass(name, P=pm.Uniform(aux + "P", 1.0, 10.0), e=pm.Uniform(aux + "e", 0.0, 0.5),
-                                      sigma_K0=30 * u.km / u.s, P0=1 * u.yr)
+        if dk in ("fcm", "fcm_foreign", "fcm_dep_mu"):
+            if own is not None:
+                Pv, ev = own["P"], own["e"]
+            else:
+                Pv, ev = pm.Uniform(aux + "P", 1.0, 10.0), pm.Uniform(aux + "e", 0.0, 0.5)
+            kw_ = dict(mu=pm.Normal(aux + "mu", 0.0, 20.0)) if dk == "fcm_dep_mu" else {}
+            return FixedCompanionMass(name, P=Pv, e=ev, sigma_K0=30 * u.km / u.s, P0=1 * u.yr, **kw_)
         if dk == "uniform":
             return pm.Uniform(name, 0.0, 6.0)
         if dk == "halfnormal":
@@ -236,7 +292,7 @@ def effective_env(spec):
     offsets are entered under their own names after the parameters.  -> {name: (dim|None, kind)}, aux entries"""
     env = {}
     for e in spec["pars"] + (spec["offsets"] if spec["offsets_arg"] in ("list", "tuple") else []):
-        env[e["name"]] = (None if e["unit"] is None else UNITS[e["unit"]], KIND_OF[e["dk"]], not e.get("misnamed"))
+        env[e["name"]] = (None if e["unit"] is None else UNITS[e["unit"]], kof(e), not e.get("misnamed"))
     return env
 
 
@@ -257,9 +313,9 @@ def wellformed_oracle(spec):
         env = {}
         if spec["pars"]:
             e = spec["pars"][0]
-            env[e["name"]] = (None if e["unit"] is None else UNITS[e["unit"]], KIND_OF[e["dk"]], not e.get("misnamed"))
+            env[e["name"]] = (None if e["unit"] is None else UNITS[e["unit"]], kof(e), not e.get("misnamed"))
         for e in spec["offsets"]:
-            env[e["name"]] = (None if e["unit"] is None else UNITS[e["unit"]], KIND_OF[e["dk"]], not e.get("misnamed"))
+            env[e["name"]] = (None if e["unit"] is None else UNITS[e["unit"]], kof(e), not e.get("misnamed"))
     else:
         env = effective_env(spec)
     q = len(spec["offsets"])
@@ -281,7 +337,7 @@ def wellformed_oracle(spec):
 
 def model_op(spec):
     def par(e):
-        return dict(name=e["name"], unit=None if e["unit"] is None else list(UNITS[e["unit"]]), kind=KIND_OF[e["dk"]],
+        return dict(name=e["name"], unit=None if e["unit"] is None else list(UNITS[e["unit"]]), kind=kof(e),
                     named=not e.get("misnamed"))
     try:
         poly = int(spec["poly"])
@@ -304,8 +360,9 @@ def run_prior(spec):
     def vname(e):
         # a variable stored under the key e["name"] but called something else in the pymc model
         return e["name"] + "_alt" if e.get("misnamed") else e["name"]
-    pars = [(e["name"], attach_unit(make_var(vname(e), e["dk"], models), e["unit"], vname(e))) for e in spec["pars"]]
-    offs = [attach_unit(make_var(vname(e), e["dk"], models), e["unit"], vname(e)) for e in spec["offsets"]]
+    allv = build_vars(spec["pars"] + spec["offsets"], models, vname)
+    pars = [(e["name"], v) for e, v in zip(spec["pars"], allv)]
+    offs = allv[len(spec["pars"]):]
     kw = {}
     form = spec["form"]
     if form == "dict":
@@ -336,6 +393,7 @@ def run_prior(spec):
 def judge_prior(ctx, g, spec, tag):
     rel = "JokerPrior()=PriorV.validate"
     spec = fix_form(spec)
+    resolve_fcm(spec["pars"] + spec["offsets"])
     impl = run_prior(spec)
     m = ctx.model(model_op(spec))
     ok, why = wellformed_oracle(spec)
@@ -366,7 +424,7 @@ DIM_POOL = sorted(set(UNITS.values()))
 # JokerPrior.default's scalar arguments (P_min, P0, sigma_K0, sigma_v, ...) are not exercised with logarithmic units (its
 # quantity_input validation accepts them; recorded in DESIGN 7.13 as not covered): physical dimensions only
 PHYS_DIM_POOL = [d_ for d_ in DIM_POOL if max(abs(x_) for x_ in d_) < 50]
-LIN_BAD_KINDS = OTHER_RV + ["normal_dep_sigma", "normal_dep_mu", "normal_dep_symbolic", "determ", "expr", "const", "pyfloat", "fake"]
+LIN_BAD_KINDS = OTHER_RV + ["normal_dep_sigma", "normal_dep_mu", "normal_dep_symbolic", "fcm_foreign", "fcm_dep_mu", "determ", "expr", "const", "pyfloat", "fake"]
 
 
 def copy_spec(spec):
@@ -475,7 +533,9 @@ def grid_case(ctx, g, rng, index):
     spec = base_spec(rng, p, q)
     judge_prior(ctx, g, copy_spec(spec), "base")
     # single mutations only discriminate when the base itself is admissible
-    if wellformed_oracle(fix_form(copy_spec(spec)))[0]:
+    _sp = fix_form(copy_spec(spec))
+    resolve_fcm(_sp["pars"] + _sp["offsets"])
+    if wellformed_oracle(_sp)[0]:
         ctx.count("grid: base prior admissible")
     for tag, s in single_mutations(spec, rng):
         judge_prior(ctx, g, s, tag)
@@ -606,7 +666,7 @@ def default_mutations(d, rng):
 
 def default_model_op(d):
     def par(e):
-        return dict(name=e["name"], unit=None if e["unit"] is None else list(UNITS[e["unit"]]), kind=KIND_OF[e["dk"]])
+        return dict(name=e["name"], unit=None if e["unit"] is None else list(UNITS[e["unit"]]), kind=kof(e))
     sv = d["sigma_v"]
     if sv is None or sv in ("bare", "array"):
         svj = sv
@@ -686,7 +746,7 @@ def default_oracle(d):
             return False, f"no usable sigma_v for {n}"
         env[n] = (UNITS[svd[n]], "normal")
     for e in d["user"] + d["offsets"]:
-        env[e["name"]] = (None if e["unit"] is None else UNITS[e["unit"]], KIND_OF[e["dk"]], not e.get("misnamed"))
+        env[e["name"]] = (None if e["unit"] is None else UNITS[e["unit"]], kof(e), not e.get("misnamed"))
     need = expected_names(p, len(d["offsets"]))
     for n in need:
         if n not in env:
@@ -708,8 +768,9 @@ def run_default(d):
     import pymc as pm
     import thejoker as tj
     models = [pm.Model(), pm.Model()]
-    user = {e["name"]: attach_unit(make_var(e["name"], e["dk"], models), e["unit"], e["name"]) for e in d["user"]}
-    offs = [attach_unit(make_var(e["name"], e["dk"], models), e["unit"], e["name"]) for e in d["offsets"]]
+    allv = build_vars(d["user"] + d["offsets"], models)
+    user = {e["name"]: v for e, v in zip(d["user"], allv)}
+    offs = allv[len(d["user"]):]
     kw = dict(P_min=q_arg(d["P_min"]), P_max=q_arg(d["P_max"]), sigma_K0=q_arg(d["sigma_K0"]), P0=q_arg(d["P0"]),
               poly_trend=d["poly"], model=models[0] if d["model"] == "ok" else 5)
     s = d["s"]
@@ -747,6 +808,7 @@ def run_default(d):
 
 def judge_default(ctx, g, d, tag):
     rel = "JokerPrior.default()=PriorV.defaultValidate"
+    resolve_fcm(d["user"] + d["offsets"])
     impl = run_default(d)
     m = ctx.model(default_model_op(d))
     ok, why = default_oracle(d)
